@@ -43,7 +43,14 @@ type thread struct {
 	blocked  func() bool // nil when runnable
 	panicVal interface{}
 	vc       vclock
+	steps    int    // scheduling points passed
+	obs      uint64 // hash of every shared value this thread has read (its view of memory)
+	class    int    // threads of one class run the same program (symmetry reduction of the state key)
+	held     uint64 // which locks the thread holds (order independent)
+	marks    uint64 // hash of the events the thread itself has reported (its results so far)
 }
+
+type threadAbort struct{}
 
 type access struct {
 	thread, clock int
@@ -53,6 +60,9 @@ type location struct {
 	lastWrite access
 	hasWrite  bool
 	reads     []access
+	id        int
+	ptr       unsafe.Pointer
+	size      uintptr
 }
 
 // Race is one pair of conflicting accesses not ordered by happens-before.
@@ -74,6 +84,14 @@ type Sched struct {
 	Races       []Race
 	Panics      []string
 	locs        map[uintptr]*location
+	// state-revisit pruning (sound only for unbounded exploration)
+	Visited   map[uint64]struct{}
+	Pruned    bool
+	hist      uint64
+	completed uint64
+	aborting  bool
+	mutexes   []*Mutex
+	rwmutexes []*RWMutex
 }
 
 var active *Sched
@@ -87,8 +105,49 @@ func Clock() int {
 }
 
 func (s *Sched) point(t *thread) {
+	t.steps++
 	t.yielded <- struct{}{}
 	<-t.resume
+	if s.aborting {
+		panic(threadAbort{})
+	}
+}
+
+func fnv(h uint64, b ...byte) uint64 {
+	if h == 0 {
+		h = 14695981039346656037
+	}
+	for _, x := range b {
+		h ^= uint64(x)
+		h *= 1099511628211
+	}
+	return h
+}
+
+func fnvU(h, v uint64) uint64 {
+	return fnv(h, byte(v), byte(v>>8), byte(v>>16), byte(v>>24), byte(v>>32), byte(v>>40), byte(v>>48), byte(v>>56))
+}
+
+// MarkCall / MarkReturn report the call and the return (with its result) of one harness
+// operation. The linearizability oracle depends on the past only through the results and
+// through which operations had returned before which were called, so the state key folds
+// in, at every call, the (unordered) set of operations completed by then.
+func MarkCall() {
+	s := active
+	if s == nil || s.cur == nil {
+		return
+	}
+	s.hist = fnvU(fnvU(s.hist, uint64(s.cur.class)+1), s.completed)
+	s.cur.marks = fnvU(s.cur.marks, 1)
+}
+
+func MarkReturn(result uint64) {
+	s := active
+	if s == nil || s.cur == nil {
+		return
+	}
+	s.completed += fnvU(fnvU(3, uint64(s.cur.class)+1), result) // commutative
+	s.cur.marks = fnvU(s.cur.marks, 2+result<<2)
 }
 
 // Yield is a preemption point.
@@ -100,16 +159,44 @@ func Yield() {
 	s.point(s.cur)
 }
 
-// Access reports a read or write of a shared location to the happens-before oracle.
-func Access[T any](p *T, write bool) {
+// Access reports a read or write of a shared location to the happens-before oracle; id is
+// the static identity of the location (field index in the instrumented file).
+func Access[T any](p *T, write bool, id int) {
 	s := active
 	if s == nil || s.cur == nil {
 		return
 	}
-	s.access(uintptr(unsafe.Pointer(p)), write)
+	l := s.access(uintptr(unsafe.Pointer(p)), write)
+	l.id, l.ptr, l.size = id, unsafe.Pointer(p), unsafe.Sizeof(*p)
+	if !write {
+		s.observe(l)
+	}
 }
 
-func (s *Sched) access(addr uintptr, write bool) {
+// AccessAtomic reports an access through sync/atomic: no race check, but the value is
+// part of what the thread has seen.
+func AccessAtomic[T any](p *T, id int) {
+	s := active
+	if s == nil || s.cur == nil {
+		return
+	}
+	addr := uintptr(unsafe.Pointer(p))
+	l := s.locs[addr]
+	if l == nil {
+		l = &location{}
+		s.locs[addr] = l
+	}
+	l.id, l.ptr, l.size = id, unsafe.Pointer(p), unsafe.Sizeof(*p)
+	s.observe(l)
+}
+
+func (s *Sched) observe(l *location) {
+	t := s.cur
+	t.obs = fnvU(t.obs, uint64(l.id)+1)
+	t.obs = fnv(t.obs, unsafe.Slice((*byte)(l.ptr), l.size)...)
+}
+
+func (s *Sched) access(addr uintptr, write bool) *location {
 	t := s.cur
 	l := s.locs[addr]
 	if l == nil {
@@ -132,21 +219,41 @@ func (s *Sched) access(addr uintptr, write bool) {
 		}
 		l.lastWrite, l.hasWrite = access{t.id, t.vc[t.id]}, true
 		l.reads = l.reads[:0]
-		return
+		return l
 	}
 	for i := range l.reads {
 		if l.reads[i].thread == t.id {
 			l.reads[i].clock = t.vc[t.id]
-			return
+			return l
 		}
 	}
 	l.reads = append(l.reads, access{t.id, t.vc[t.id]})
+	return l
 }
 
 // Mutex is the controlled replacement for sync.Mutex.
 type Mutex struct {
-	held bool
-	vc   vclock
+	held  bool
+	vc    vclock
+	owner int // thread id + 1 while held inside a controlled execution
+	reg   *Sched
+}
+
+func (m *Mutex) register(s *Sched) {
+	if m.reg != s {
+		m.reg = s
+		s.mutexes = append(s.mutexes, m)
+	}
+}
+
+func (m *Mutex) bit(s *Sched) uint64 {
+	m.register(s)
+	for i, x := range s.mutexes {
+		if x == m {
+			return fnvU(7, uint64(i)+1)
+		}
+	}
+	return 0
 }
 
 // Lock acquires m; a scheduling point before the acquisition.
@@ -160,6 +267,7 @@ func (m *Mutex) Lock() {
 		return
 	}
 	t := s.cur
+	m.register(s)
 	if m.held {
 		s.Contended++
 	}
@@ -169,7 +277,8 @@ func (m *Mutex) Lock() {
 	if m.held {
 		panic("verifsync: scheduler resumed a thread on a held mutex")
 	}
-	m.held = true
+	m.held, m.owner = true, t.id+1
+	t.held ^= m.bit(s)
 	if m.vc != nil {
 		t.vc.join(m.vc)
 	}
@@ -193,9 +302,10 @@ func (m *Mutex) Unlock() {
 	if !m.held {
 		panic("sync: unlock of unlocked mutex")
 	}
-	m.held = false
+	m.held, m.owner = false, 0
 	if s := active; s != nil && s.cur != nil {
 		t := s.cur
+		t.held ^= m.bit(s)
 		m.vc = append(m.vc[:0], t.vc...)
 		t.vc[t.id]++
 	}
@@ -207,6 +317,27 @@ type RWMutex struct {
 	readers int
 	wvc     vclock // released by writers
 	rvc     vclock // released by readers
+	reg     *Sched
+}
+
+func (m *RWMutex) register(s *Sched) {
+	if m.reg != s {
+		m.reg = s
+		s.rwmutexes = append(s.rwmutexes, m)
+	}
+}
+
+func (m *RWMutex) bit(s *Sched, write bool) uint64 {
+	m.register(s)
+	for i, x := range s.rwmutexes {
+		if x == m {
+			if write {
+				return fnvU(11, uint64(i)+1)
+			}
+			return fnvU(13, uint64(i)+1)
+		}
+	}
+	return 0
 }
 
 // Lock acquires the write lock.
@@ -220,6 +351,7 @@ func (m *RWMutex) Lock() {
 		return
 	}
 	t := s.cur
+	m.register(s)
 	if m.writer || m.readers > 0 {
 		s.Contended++
 	}
@@ -227,6 +359,7 @@ func (m *RWMutex) Lock() {
 	s.point(t)
 	t.blocked = nil
 	m.writer = true
+	t.held ^= m.bit(s, true)
 	if m.wvc != nil {
 		t.vc.join(m.wvc)
 	}
@@ -243,6 +376,7 @@ func (m *RWMutex) Unlock() {
 	m.writer = false
 	if s := active; s != nil && s.cur != nil {
 		t := s.cur
+		t.held ^= m.bit(s, true)
 		m.wvc = append(m.wvc[:0], t.vc...)
 		t.vc[t.id]++
 	}
@@ -259,6 +393,7 @@ func (m *RWMutex) RLock() {
 		return
 	}
 	t := s.cur
+	m.register(s)
 	if m.writer {
 		s.Contended++
 	}
@@ -266,6 +401,7 @@ func (m *RWMutex) RLock() {
 	s.point(t)
 	t.blocked = nil
 	m.readers++
+	t.held += m.bit(s, false) // additive: a thread may hold several read locks
 	if m.wvc != nil {
 		t.vc.join(m.wvc)
 	}
@@ -279,12 +415,88 @@ func (m *RWMutex) RUnlock() {
 	m.readers--
 	if s := active; s != nil && s.cur != nil {
 		t := s.cur
+		t.held -= m.bit(s, false)
 		if m.rvc == nil {
 			m.rvc = make(vclock, len(t.vc))
 		}
 		m.rvc.join(t.vc)
 		t.vc[t.id]++
 	}
+}
+
+// key identifies the program state at a scheduling decision: per thread how far it is and
+// everything it has read so far (its local state is a function of both), the current
+// value of every shared location, who holds which mutex, and the order of operation calls
+// and returns so far (which the linearizability oracle depends on).
+func (s *Sched) key() uint64 {
+	h := fnvU(fnvU(0, s.hist), s.completed)
+	// thread signatures, sorted inside each class: threads that run the same program are
+	// interchangeable (the harness and the oracles are symmetric in them)
+	sigs := make([][2]uint64, 0, len(s.threads))
+	for _, t := range s.threads {
+		d := uint64(0)
+		if t.done {
+			d = 1
+		}
+		sig := fnvU(fnvU(fnvU(fnvU(fnvU(0, uint64(t.steps)), t.obs), d), t.held), t.marks)
+		sigs = append(sigs, [2]uint64{uint64(t.class), sig})
+	}
+	for i := 1; i < len(sigs); i++ {
+		for j := i; j > 0 && (sigs[j][0] < sigs[j-1][0] || (sigs[j][0] == sigs[j-1][0] && sigs[j][1] < sigs[j-1][1])); j-- {
+			sigs[j], sigs[j-1] = sigs[j-1], sigs[j]
+		}
+	}
+	for _, x := range sigs {
+		h = fnvU(fnvU(h, x[0]), x[1])
+	}
+	// locations in the order of their static ids
+	type lv struct {
+		id int
+		l  *location
+	}
+	var ls []lv
+	for _, l := range s.locs {
+		if l.ptr != nil {
+			ls = append(ls, lv{l.id, l})
+		}
+	}
+	for i := 1; i < len(ls); i++ {
+		for j := i; j > 0 && ls[j].id < ls[j-1].id; j-- {
+			ls[j], ls[j-1] = ls[j-1], ls[j]
+		}
+	}
+	for _, x := range ls {
+		h = fnvU(h, uint64(x.id)+1)
+		h = fnv(h, unsafe.Slice((*byte)(x.l.ptr), x.l.size)...)
+	}
+	for i, m := range s.mutexes {
+		o := uint64(0)
+		if m.held {
+			o = 1
+		}
+		h = fnvU(fnvU(h, uint64(i)+1000), o) // who holds it is in the holder's signature
+	}
+	for i, m := range s.rwmutexes {
+		w := uint64(0)
+		if m.writer {
+			w = 1
+		}
+		h = fnvU(fnvU(fnvU(h, uint64(i)+2000), w), uint64(m.readers))
+	}
+	return h
+}
+
+// kill unwinds every thread that has not finished (used when an execution is cut short).
+func (s *Sched) kill() {
+	s.aborting = true
+	for _, t := range s.threads {
+		if !t.done {
+			s.cur = t
+			t.resume <- struct{}{}
+			<-t.yielded
+		}
+	}
+	s.cur = nil
 }
 
 func (s *Sched) enabled() []*thread {
@@ -303,19 +515,26 @@ func (s *Sched) enabled() []*thread {
 
 // Run executes bodies as controlled threads; ch decides every scheduling choice.
 // maxSteps bounds the length of one execution (a guard against spinning code).
-func Run(ch Chooser, bound, maxSteps int, bodies []func()) *Sched {
-	s := &Sched{Bound: bound, locs: map[uintptr]*location{}}
+func Run(ch Chooser, bound, maxSteps int, visited map[uint64]struct{}, classes []int, bodies []func()) *Sched {
+	s := &Sched{Bound: bound, locs: map[uintptr]*location{}, Visited: visited}
 	active = s
 	defer func() { active = nil }()
 	for i, b := range bodies {
 		t := &thread{id: i, resume: make(chan struct{}), yielded: make(chan struct{}), vc: make(vclock, len(bodies))}
 		t.vc[i] = 1
+		if classes != nil {
+			t.class = classes[i]
+		} else {
+			t.class = i
+		}
 		s.threads = append(s.threads, t)
 		go func(t *thread, b func()) {
 			<-t.resume
 			defer func() {
 				if r := recover(); r != nil {
-					t.panicVal = r
+					if _, ok := r.(threadAbort); !ok {
+						t.panicVal = r
+					}
 				}
 				t.done = true
 				t.yielded <- struct{}{}
@@ -352,6 +571,17 @@ func Run(ch Chooser, bound, maxSteps int, bodies []func()) *Sched {
 		}
 		c := 0
 		if n > 1 {
+			if s.Visited != nil {
+				if nn, ok := ch.(interface{ NewNode() bool }); ok && nn.NewNode() {
+					k := s.key()
+					if _, seen := s.Visited[k]; seen {
+						s.Pruned = true
+						s.kill()
+						return s
+					}
+					s.Visited[k] = struct{}{}
+				}
+			}
 			c = ch.Pick(n)
 		}
 		if runningEnabled && c != 0 {
@@ -371,9 +601,7 @@ func Run(ch Chooser, bound, maxSteps int, bodies []func()) *Sched {
 		}
 	}
 	if s.Deadlock {
-		// release the goroutines that are still parked so that they do not leak: they stay
-		// blocked on their resume channel forever otherwise. They are abandoned here; the
-		// explorer stops at the first violation, so the leak is bounded.
+		s.kill() // unwind the threads that are still parked
 	}
 	return s
 }
